@@ -318,6 +318,7 @@ def deep_checks(st, m, T, ent, elem, keys, ed, N, bad, out):
         return
     # DOF locations: the same mapped point from every cell that references the DOF
     dl = getattr(b, 'doflocs', None)
+    dl_ok = True
     if st.cls.endswith('DG'):
         dl = None       # an identified DOF has two geometric locations: the location table is not single-valued by design
     if dl is not None:
@@ -332,10 +333,12 @@ def deep_checks(st, m, T, ent, elem, keys, ed, N, bad, out):
                     c = int(np.abs(dl[:, ed[l]] - loc[:, :, l]).max(axis=0).argmax())
                     bad('doflocs-disagree', f"DOF {int(ed[l, c])}: location table says {dl[:, ed[l, c]].tolist()} but cell "
                         f"{c} maps its local DOF {l} to {loc[:, c, l].tolist()}")
+                    dl_ok = False
                     break
     # an explicitly passed mapping whose geometry differs from the mesh's default one (affine mapping on the curved
     # second-order twin): the location table follows the basis' own mapping
-    if st.cls in ('MeshTri1', 'MeshTet1') and ent.wrapper in (None, 'vector', 'dg') and len(st.hist) == 1:
+    if dl_ok and st.cls in ('MeshTri1', 'MeshTet1') and ent.wrapper in (None, 'vector', 'dg') and len(st.hist) == 1:
+        # (only where the table is single-valued with the default mapping: otherwise that defect is reported above)
         try:
             import skfem
             from skfem.mapping import MappingAffine
